@@ -14,6 +14,9 @@ pub struct Scenario {
     /// scripts for the `Read` driver (short reads only)
     pub read_scripts: Vec<Vec<Option<ReadFault>>>,
     pub force_wide: bool,
+    /// also load through the `image`-crate adapter (its own `Read` loop) with the same read scripts
+    #[serde(default)]
+    pub adapter: bool,
 }
 
 pub fn generate(seed: u64, tier: Tier) -> Scenario {
@@ -49,7 +52,9 @@ pub fn generate(seed: u64, tier: Tier) -> Scenario {
         schedules.truncate(2);
         read_scripts.truncate(1);
     }
-    Scenario { case, schedules, read_scripts, force_wide: rng.chance(1, 5) }
+    let force_wide = rng.chance(1, 5);
+    let adapter = rng.chance(1, 2);
+    Scenario { case, schedules, read_scripts, force_wide, adapter }
 }
 
 pub fn digest(sc: &Scenario) -> u64 {
@@ -164,6 +169,24 @@ pub fn execute(seed: u64, sc: &Scenario, stats: &mut Stats) -> Result<(), Violat
                     return Err(viol(seed, sc, format!("read_differs:{}", diff_field(&d)), format!("one-buffer feed vs read() with short reads: {d}")));
                 }
             }
+        }
+    }
+    // the image-crate adapter: whole stream in one read vs the scripted short reads
+    if sc.adapter {
+        crate::harness::heartbeat("c09-adapter");
+        let (want, _) = crate::checks::adapter::observe(bytes, vec![]);
+        for script in &sc.read_scripts {
+            let (got, fired) = crate::checks::adapter::observe(bytes, script.clone());
+            stats.fault_n("adapter_short_read", fired as u64);
+            let d = match (&want, &got) {
+                (Ok(a), Ok(b)) => a.diff(b),
+                (Err(a), Err(b)) if a == b => None,
+                (a, b) => Some(format!("construction: {:?} vs {:?}", a.as_ref().map(|_| "ok"), b.as_ref().map(|_| "ok"))),
+            };
+            if let Some(d) = d {
+                return Err(viol(seed, sc, "adapter_read_differs".into(), format!("JxlDecoder reading the stream in one piece vs with {fired} short reads: {d}")));
+            }
+            stats.probe(if want.is_ok() { "adapter_decoded" } else { "adapter_rejected_consistently" });
         }
     }
     if dbg {
